@@ -38,6 +38,8 @@ type c02Env struct {
 	recs *kit.NDJSON
 	dec  *zstd.Decoder
 	n    map[string]int
+	// packs the driver itself wrote with a deliberately wrong blob id (not judged as "stored by restic")
+	planted map[string]bool
 }
 
 func c02Sha(b []byte) restic.ID { return restic.ID(sha256.Sum256(b)) }
@@ -89,7 +91,7 @@ func (e *c02Env) open(store *kit.Store, proc string, c *cache.Cache, cfg string)
 	if c != nil {
 		cs = "good"
 	}
-	rec := map[string]any{"op": "read", "cfg": cfg, "target": "repository-open", "api": "LoadUnpacked", "script": []string{"good"}, "cache": cs,
+	rec := map[string]any{"op": "read", "cfg": cfg, "target": "repository-open", "api": "LoadUnpacked", "script": []string{"good"}, "cache": cs, "stored": "good",
 		"results": []c02Result{{Err: true}}, "attempts": 0, "panic": false, "msg": c02Short(err.Error())}
 	e.recs.Write(rec)
 	e.n["read/open-failed"]++
@@ -143,6 +145,9 @@ var c02TypeNames = map[backend.FileType]string{backend.PackFile: "pack", backend
 // walk checks every file of the store against its name, and every blob of every pack against its id.
 func (e *c02Env) walk(store *kit.Store, key *crypto.Key, cfg string) {
 	for h, data := range store.Files() {
+		if h.Type == backend.PackFile && e.planted[h.Name] {
+			continue
+		}
 		tn := c02TypeNames[h.Type]
 		rec := map[string]any{"op": "stored", "cfg": cfg, "ftype": tn, "name_ok": h.Name == hex.EncodeToString(func() []byte { s := sha256.Sum256(data); return s[:] }()), "size": len(data), "blobs": []any{}}
 		if h.Type == backend.PackFile && key != nil {
@@ -289,6 +294,13 @@ type c02Target struct {
 	doc   []byte             // expected decoded document (LoadUnpacked)
 	blobs []restic.BlobHandle // LoadBlob: one; LoadBlobsFromPack: all of the pack
 	cache bool               // the cache keeps files of this kind
+	// stored state of the target: "good", or "misaddressed" = the pack is bit for bit what was uploaded (name =
+	// SHA-256 of its bytes, every MAC valid, header and index agree) but one blob in it sits under an id that is not
+	// the hash of its plaintext (damaged before encryption on the machine that wrote it)
+	stored string
+	one    *restic.BlobHandle // LoadBlob asks for this blob (default blobs[0])
+	sound  bool               // driver's own verdict: pack name = hash of bytes and every blob hashes to its id
+	size   int64              // pack size
 }
 
 type c02Fault struct {
@@ -365,8 +377,25 @@ func (e *c02Env) run(rd *Repository, tg *c02Target, api string) (results []c02Re
 		buf, err := rd.LoadUnpacked(ctx, tg.ft, tg.id)
 		results = append(results, c02Result{Err: err != nil, HashOK: err == nil && bytes.Equal(buf, tg.doc), Data: err != nil && buf != nil})
 	case "LoadBlob":
-		buf, err := rd.LoadBlob(ctx, tg.blobs[0], nil)
-		results = append(results, c02Result{Err: err != nil, HashOK: err == nil && c02Sha(buf) == tg.blobs[0].ID, Data: err != nil && buf != nil})
+		bh := tg.blobs[0]
+		if tg.one != nil {
+			bh = *tg.one
+		}
+		buf, err := rd.LoadBlob(ctx, bh, nil)
+		results = append(results, c02Result{Err: err != nil, HashOK: err == nil && c02Sha(buf) == bh.ID, Data: err != nil && buf != nil})
+	case "CheckPack":
+		// the read behind `check --read-data`: every blob of the pack is read and verified against its id, the pack
+		// against its name.  It hands out a verdict instead of bytes: no error = "everything stored in this pack
+		// matches its address"; HashOK is filled in by readCase from what was stored and served.
+		packID, _ := restic.ParseID(tg.h.Name)
+		var blobs pack.Blobs
+		for pbs := range rd.listPacksFromIndex(ctx, restic.NewIDSet(packID)) {
+			if pbs.PackID == packID {
+				blobs = pbs.Blobs
+			}
+		}
+		err := checkPack(ctx, rd, packID, blobs, tg.size, bufio.NewReaderSize(nil, maxStreamBufferSize), e.dec)
+		results = append(results, c02Result{Err: err != nil})
 	case "LoadBlobsFromPack":
 		packID, _ := restic.ParseID(tg.h.Name)
 		seen := 0
@@ -393,7 +422,28 @@ func (e *c02Env) readCase(store *kit.Store, rd *Repository, cfg string, tg *c02T
 	if results == nil {
 		results = []c02Result{{Err: true}}
 	}
-	rec := map[string]any{"op": "read", "cfg": cfg, "target": tg.name, "api": api, "script": script, "cache": cacheState, "results": results, "attempts": f.attempts, "panic": pn != ""}
+	if api == "CheckPack" {
+		// a clean verdict is right iff what was stored is sound and what the last read was served begins with the
+		// stored bytes ("extended" = the genuine bytes followed by garbage beyond the requested length)
+		last := "good"
+		if f.attempts > 0 {
+			i := f.attempts
+			if i > len(script) {
+				i = len(script)
+			}
+			last = script[i-1]
+		} else if cacheState == "bad" {
+			last = "altered"
+		}
+		for i := range results {
+			results[i].HashOK = !results[i].Err && tg.sound && (last == "good" || last == "extended")
+		}
+	}
+	stored := tg.stored
+	if stored == "" {
+		stored = "good"
+	}
+	rec := map[string]any{"op": "read", "cfg": cfg, "target": tg.name, "api": api, "script": script, "cache": cacheState, "stored": stored, "results": results, "attempts": f.attempts, "panic": pn != ""}
 	if pn != "" {
 		rec["msg"] = pn
 	}
@@ -409,6 +459,10 @@ func (e *c02Env) readCase(store *kit.Store, rd *Repository, cfg string, tg *c02T
 	e.res.Count(fmt.Sprintf("read_values_ok"), okc)
 	e.res.Count(fmt.Sprintf("read_values_err"), len(results)-okc)
 	for _, r := range results {
+		if !r.Err && !r.HashOK && api == "CheckPack" {
+			e.res.Violate(fmt.Sprintf("address/read/%s/%s/mismatch-passes-verification", api, tg.name), fmt.Sprintf("checkPack (check --read-data) of %s (%s, stored: %s) reported no error although what it read does not match its address; backend script %v, cache %s", tg.name, cfg, stored, script, cacheState), rec)
+			break
+		}
 		if !r.Err && !r.HashOK {
 			e.res.Violate(fmt.Sprintf("address/read/%s/%s/wrong-content-handed-out", api, tg.name), fmt.Sprintf("%s of %s (%s) returned content whose hash is not the requested id; backend script %v, cache %s", api, tg.name, cfg, script, cacheState), rec)
 			break
@@ -440,7 +494,7 @@ type c02SetupFailed struct{}
 // setupFail: preparing the read scenarios on an undisturbed store failed (a save, an index lookup or a stored file is
 // missing).  That is an observation about the real code, recorded for Fn_ContentAddr (Healthy => no error).
 func (e *c02Env) setupFail(cfg, format string, args ...any) {
-	rec := map[string]any{"op": "read", "cfg": cfg, "target": "scenario-setup", "api": "LoadBlob", "script": []string{"good"}, "cache": "none",
+	rec := map[string]any{"op": "read", "cfg": cfg, "target": "scenario-setup", "api": "LoadBlob", "script": []string{"good"}, "cache": "none", "stored": "good",
 		"results": []c02Result{{Err: true}}, "attempts": 0, "panic": false, "msg": c02Short(fmt.Sprintf(format, args...))}
 	e.recs.Write(rec)
 	e.n["read/setup-failed"]++
@@ -487,7 +541,7 @@ func (e *c02Env) part2(version uint, mode CompressionMode, scripts [][]string, w
 		b := must(c02SaveBlobs(repo, bt, [][]byte{rb(1000, 11+int64(bt))}, false))[0]
 		pa, _ := packOf(bt, a)
 		_, twin := packOf(bt, b)
-		targets = append(targets, &c02Target{name: bt.String() + "-blob", h: backend.Handle{Type: backend.PackFile, Name: pa.String()}, twin: twin, apis: []string{"LoadBlob", "LoadBlobsFromPack"},
+		targets = append(targets, &c02Target{name: bt.String() + "-blob", h: backend.Handle{Type: backend.PackFile, Name: pa.String()}, twin: twin, apis: []string{"LoadBlob", "LoadBlobsFromPack", "CheckPack"},
 			blobs: []restic.BlobHandle{{Type: bt, ID: a}}, cache: bt == restic.TreeBlob})
 		// three blobs in one pack and a twin pack with the same layout
 		x := must(c02SaveBlobs(repo, bt, [][]byte{rb(700, 21+int64(bt)), rb(300, 22+int64(bt)), rb(1500, 23+int64(bt))}, false))
@@ -501,8 +555,44 @@ func (e *c02Env) part2(version uint, mode CompressionMode, scripts [][]string, w
 				e.res.Problem("blobs of one upload are in different packs")
 			}
 		}
-		targets = append(targets, &c02Target{name: bt.String() + "-pack3", h: backend.Handle{Type: backend.PackFile, Name: px.String()}, twin: twin3, apis: []string{"LoadBlobsFromPack", "LoadBlob"},
+		targets = append(targets, &c02Target{name: bt.String() + "-pack3", h: backend.Handle{Type: backend.PackFile, Name: px.String()}, twin: twin3, apis: []string{"LoadBlobsFromPack", "LoadBlob", "CheckPack"},
 			blobs: hs, cache: bt == restic.TreeBlob})
+		// the same layout once more, but the middle blob is stored under an id that is not the hash of its plaintext:
+		// written with the extra verification switched off and an id handed in by the caller (what bad memory between
+		// hashing and encrypting produces).  Every read of that blob has to report an error.
+		{
+			orig := rb(300, 42+int64(bt))
+			wrong := restic.BlobHandle{Type: bt, ID: c02Sha(orig)}
+			damaged := append([]byte{}, orig...)
+			damaged[17] ^= 0x04
+			g1, g3 := rb(700, 41+int64(bt)), rb(1500, 43+int64(bt))
+			repo.opts.NoExtraVerify = true
+			err := repo.WithBlobUploader(ctx, func(ctx context.Context, up restic.BlobSaverWithAsync) error {
+				for _, x := range []struct {
+					buf []byte
+					id  restic.ID
+				}{{g1, restic.ID{}}, {damaged, wrong.ID}, {g3, restic.ID{}}} {
+					if _, _, _, err := up.SaveBlob(ctx, bt, x.buf, x.id, false); err != nil {
+						return err
+					}
+				}
+				return nil
+			})
+			repo.opts.NoExtraVerify = false
+			if err != nil {
+				e.setupFail(cfg, "setup save (explicit id): %v", err)
+			}
+			pm, _ := packOf(bt, wrong.ID)
+			e.planted[pm.String()] = true
+			mh := []restic.BlobHandle{{Type: bt, ID: c02Sha(g1)}, wrong, {Type: bt, ID: c02Sha(g3)}}
+			for _, bh := range mh {
+				if p, _ := packOf(bt, bh.ID); p != pm {
+					e.res.Problem("blobs of one upload are in different packs")
+				}
+			}
+			targets = append(targets, &c02Target{name: bt.String() + "-misaddressed", h: backend.Handle{Type: backend.PackFile, Name: pm.String()}, twin: twin3,
+				apis: []string{"LoadBlob", "LoadBlobsFromPack", "CheckPack"}, blobs: mh, one: &wrong, stored: "misaddressed"})
+		}
 		if bt == restic.DataBlob {
 			// whole pack file through LoadRaw
 			targets = append(targets, &c02Target{name: "pack-file", h: backend.Handle{Type: backend.PackFile, Name: pa.String()}, twin: twin, apis: []string{"LoadRaw"}, ft: restic.PackFile, id: pa})
@@ -558,6 +648,28 @@ func (e *c02Env) part2(version uint, mode CompressionMode, scripts [][]string, w
 		targets = append(targets, &c02Target{name: "key", h: backend.Handle{Type: backend.KeyFile, Name: knames[0]}, twin: raw2, apis: []string{"LoadRaw"}, ft: restic.KeyFile, id: kid})
 	}
 
+	// the driver's own verdict about every target pack (independent decrypt / decompress / SHA-256)
+	for _, tg := range targets {
+		if tg.h.Type != backend.PackFile {
+			continue
+		}
+		data, _ := store.Get(tg.h)
+		tg.size = int64(len(data))
+		tg.sound = hex.EncodeToString(func() []byte { s := sha256.Sum256(data); return s[:] }()) == tg.h.Name
+		list, _, err := pack.List(repo.Key(), bytes.NewReader(data), int64(len(data)))
+		if err != nil || len(list) == 0 {
+			tg.sound = false
+		}
+		for _, b := range list {
+			plain, ok := e.plainOf(repo.Key(), data, b)
+			if !ok || c02Sha(plain) != b.ID {
+				tg.sound = false
+			}
+		}
+		if tg.sound != (tg.stored != "misaddressed") {
+			e.res.Problem("target %s: the stored pack is sound=%v but the scenario wants %q", tg.name, tg.sound, tg.stored)
+		}
+	}
 	// ---- no cache: one reader, every script
 	rd := e.open(store, "reader", nil, cfg)
 	if rd == nil {
@@ -595,8 +707,13 @@ func (e *c02Env) part2(version uint, mode CompressionMode, scripts [][]string, w
 					if crd == nil {
 						return
 					}
-					// warm the cache with an undisturbed read through the same API
-					if res, pn := e.run(crd, tg, api); pn != "" || len(res) == 0 || res[0].Err || !res[0].HashOK {
+					// warm the cache with an undisturbed read through the same API (checkPack never fills the cache:
+					// an ordinary read of a blob of the pack does)
+					warm := api
+					if api == "CheckPack" {
+						warm = "LoadBlob"
+					}
+					if res, pn := e.run(crd, tg, warm); pn != "" || len(res) == 0 || res[0].Err || !res[0].HashOK {
 						e.res.Problem("undisturbed warm-up read failed for %s %s: %v %s", tg.name, api, res, pn)
 						continue
 					}
@@ -621,7 +738,7 @@ func TestVerif_C02(t *testing.T) {
 	if err != nil {
 		t.Fatal(err)
 	}
-	e := &c02Env{t: t, res: res, recs: recs, dec: dec, n: map[string]int{}}
+	e := &c02Env{t: t, res: res, recs: recs, dec: dec, n: map[string]int{}, planted: map[string]bool{}}
 
 	// fault scripts enumerated by TLC
 	var scripts [][]string
